@@ -20,7 +20,7 @@ NUMBERS_FNS = [
     "euclidean_slash", "euclidean_quotient", "euclidean_remainder",
     "quotient", "remainder", "modulo",
     "divide_primitive", "number_to_float", "inexact", "exact", "abs",
-    "exact_integer_sqrt", "exact_integer_impl", "arithmetic_shift",
+    "arithmetic_shift",
     "bitwise_xor", "bitwise_ior", "bitwise_and", "bitwise_not", "even", "odd",
     "ensure_args_are_numbers", "multiply_two", "multiply_primitive_impl", "complex_reciprocal",
     "negate", "add_two", "add_two_fallible", "multiply_complex", "negate_complex", "add_complex",
@@ -83,6 +83,9 @@ def build(scratch):
         rv.append(ex.fn(RVALS, f))
     rv.append(ex.impl_block(RVALS, r"impl PartialOrd for SteelVal"))
 
+    isq = [ex.fn(NUMBERS, f) for f in ["exact_integer_sqrt", "exact_integer_impl"]]
+    VMP = "crates/steel-core/src/steel_vm/primitives.rs"
+    vmp = [ex.fn(VMP, f) for f in ["ensure_real", "ord_internal", "greater_than", "greater_than_equal", "less_than", "less_than_equal"]]
     hdr_allow = "#![allow(dead_code, unused_imports, unused_variables, unreachable_patterns, unused_mut)]\n"
     mod_numbers = (hdr_allow + "// imports mirror crates/steel-core/src/primitives/numbers.rs\n"
                    "use crate::gc::Gc;\nuse crate::rvals::{IntoSteelVal, Result, SteelComplex, SteelVal};\n"
@@ -103,6 +106,16 @@ def build(scratch):
                  "use num_traits::{FromPrimitive, Signed, ToPrimitive, Zero};\n\n"
                  + "\n\n".join(rv) + "\n\n#[cfg(kani)]\n#[path = \"harness_rvals.rs\"]\nmod harness;\n")
 
+    mod_vmp = (hdr_allow + "// imports mirror crates/steel-core/src/steel_vm/primitives.rs\n"
+               "use crate::rerrs::{ErrorKind, SteelErr};\nuse crate::rvals::{Result, SteelVal};\nuse crate::{steelerr, stop, throw};\n"
+               "use crate::prelude::format;\nuse crate::x_numbers::realp;\nuse core::cmp::Ordering;\n\n"
+               + "\n\n".join(vmp) + "\n\n#[cfg(kani)]\n#[path = \"harness_vmprims.rs\"]\nmod harness;\n")
+
+    mod_isqrt = (hdr_allow + "// exact-integer-sqrt with num_integer::Roots::sqrt as an ASSUMED DEPENDENCY CONTRACT (crate::prelude::isqrt_dep)\n"
+                 "use crate::gc::Gc;\nuse crate::rvals::{IntoSteelVal, Result, SteelVal};\nuse crate::{steelerr, stop, throw};\nuse crate::prelude::format;\n"
+                 "use crate::prelude::BigInt;\nuse crate::prelude::isqrt_dep as num_integer;\nuse crate::prelude::isqrt_dep::Roots;\nuse num_traits::Signed;\n\n"
+                 + "\n\n".join(isq) + "\n\n#[cfg(kani)]\n#[path = \"harness_isqrt.rs\"]\nmod harness;\n")
+
     crate = os.path.join(scratch, "numx")
     os.makedirs(os.path.join(crate, "src"))
     shutil.copy(os.path.join(REPO, "Cargo.lock"), os.path.join(crate, "Cargo.lock"))
@@ -122,20 +135,22 @@ num-rational = { version = "=0.4.2", default-features = false, features = ["std"
 unexpected_cfgs = { level = "allow", check-cfg = ['cfg(kani)'] }
 """)
     prelude = read(os.path.join(VERIF, "units/num/prelude.rs"))
-    hs = {n: read(os.path.join(VERIF, "units/num", n)) for n in ("harness_common.rs", "harness_numbers.rs", "harness_rvals.rs")}
+    hs = {n: read(os.path.join(VERIF, "units/num", n)) for n in ("harness_common.rs", "harness_numbers.rs", "harness_rvals.rs", "harness_vmprims.rs", "harness_isqrt.rs")}
     harness = "\n".join(hs.values())
     write(os.path.join(crate, "src/prelude.rs"), prelude)
     write(os.path.join(crate, "src/x_numbers.rs"), mod_numbers)
     write(os.path.join(crate, "src/x_primitives.rs"), mod_prims)
     write(os.path.join(crate, "src/x_conversions.rs"), mod_conv)
     write(os.path.join(crate, "src/x_rvals.rs"), mod_rvals)
+    write(os.path.join(crate, "src/x_vmprims.rs"), mod_vmp)
+    write(os.path.join(crate, "src/x_isqrt.rs"), mod_isqrt)
     write(os.path.join(crate, "src/lib.rs"),
           "#![allow(dead_code, unused_imports, unused_macros)]\n#[macro_use]\npub mod prelude;\n"
           "pub(crate) use prelude::{steelerr, stop, throw};\n"
           "pub mod gc { pub use crate::prelude::Gc; }\n"
           "pub mod rerrs { pub use crate::prelude::{ErrorKind, SteelErr}; }\n"
           "pub mod rvals { pub use crate::prelude::{FromSteelVal, IntoSteelVal, Result, SteelVal}; pub use crate::x_rvals::*; }\n"
-          "pub mod x_numbers;\npub mod x_primitives;\npub mod x_conversions;\npub mod x_rvals;\n"
+          "pub mod x_numbers;\npub mod x_primitives;\npub mod x_conversions;\npub mod x_rvals;\npub mod x_vmprims;\npub mod x_isqrt;\n"
           "#[cfg(kani)]\nmod harness_common;\n")
     for n, t in hs.items():
         write(os.path.join(crate, "src", n), t)
@@ -204,6 +219,8 @@ OBS["into_steelval_u128"] = _o(["C20"], "proof", ["impl IntoSteelVal for u128"],
 OBS["complex_imaginary_sign_classification"] = _o(["C12"], "proof", ["SteelComplex::imaginary_is_finite", "SteelComplex::imaginary_is_negative"], "for every f64 / fixnum imaginary part: finite <=> is_finite (NaN and infinities are not), negative <=> sign bit; the writer relies on this to print `a+bi` only when that is readable syntax")
 OBS["big_to_small_int_conversions"] = _o(["C20"], "proof", ["FromSteelVal for u8/i8/i64 (BigNum arm)"], "a bignum never converts to a narrower integer")
 OBS["float_char_bool_unit_conversions"] = _o(["C20"], "proof", ["from_f64!", "try_from_impl!(NumV)", "char/bool/()/Option impls"], "f64/f32/char/bool/()/Option round trip; mistyped values are ConversionErrors")
+OBS["exact_integer_sqrt_rejects_negative"] = _o(["C10", "C07"], "proof", ["exact_integer_sqrt"], "negative fixnums and flonums are TypeMismatch error values")
+OBS["ord_variadic_compares_adjacent_pairs"] = _o(["C10", "C01"], "proof", ["ord_internal", "ensure_real", "greater_than", "greater_than_equal", "less_than", "less_than_equal"], "(< a b c) <=> a<b and b<c (likewise > <= >=) for all fixnum triples - every ADJACENT pair is compared; a non-real operand before the first failing pair is a TypeMismatch; no argument is an ArityMismatch")
 OBS = {k: v for k, v in OBS.items() if v}
 
 CANARY = dict(name="canary_must_fail", kind="canary", contract="assert that must fail behind the unit's preconditions")
